@@ -118,6 +118,13 @@ func H_C30_history() {
 			if verifrt.Bool("keepOne") {
 				keep = []uint32{id}
 			}
+			// ids the queue has never heard of (newly assigned repositories are passed here before
+			// AddOrUpdate runs on them)
+			for _, unknown := range []uint32{8} {
+				if verifrt.Bool("keepUnknown") {
+					keep = append(keep, unknown)
+				}
+			}
 			ntracked := 0
 			for i := uint32(1); i <= 3; i++ {
 				if ref.tracked[i] {
@@ -127,7 +134,7 @@ func H_C30_history() {
 			q.MaybeRemoveMissing(keep)
 			if ntracked != len(keep) { // documented shortcut: same size => nothing to do
 				for i := uint32(1); i <= 3; i++ {
-					if ref.tracked[i] && !(len(keep) == 1 && keep[0] == i) {
+					if ref.tracked[i] && !(len(keep) >= 1 && keep[0] == i) {
 						ref.tracked[i], ref.onQueue[i], ref.indexed[i], ref.failed[i] = false, false, false, false
 						ref.ver[i] = 0
 					}
@@ -365,10 +372,15 @@ func H_C30_step() {
 		if verifrt.Bool("keepOne") {
 			keep = []uint32{id}
 		}
+		for _, unknown := range []uint32{8} {
+			if verifrt.Bool("keepUnknown") {
+				keep = append(keep, unknown)
+			}
+		}
 		q.MaybeRemoveMissing(keep)
 		if n != len(keep) {
 			for _, it := range items {
-				kept := len(keep) == 1 && keep[0] == it.repoID
+				kept := len(keep) >= 1 && keep[0] == it.repoID
 				verifrt.Assert((q.items[it.repoID] == it) == kept, "step: exactly the repositories that still exist stay tracked")
 				if !kept {
 					for _, h := range q.pq {
